@@ -106,7 +106,7 @@ def gnet_attr(it, n, name):
 
 
 TABLES = ["bus", "res_bus", "switch", "line", "res_line", "trafo", "res_trafo", "trafo3w", "res_trafo3w", "load", "res_load", "sgen", "res_sgen",
-          "measurement", "group", "line_geodata", "bus_geodata", "impedance", "res_impedance"]
+          "measurement", "group", "line_geodata", "bus_geodata", "impedance", "res_impedance", "poly_cost", "pwl_cost"]
 
 
 def run(vc):
@@ -148,6 +148,13 @@ def run(vc):
                 drops = [k for k, e in enumerate(log) if e[0] == "drop" and e[1] == et]
                 p.prove(f"{tag}:rows[{et}]-dropped-after-detach", bool(drops) and all(k > log.index(mine[0]) for k in drops) if mine else False,
                         meta=dict(part="drop", fn=fn))
+            if fn == "drop_elements_simple":
+                et = args[0]
+                p.prove(f"{tag}:measurements-of-the-dropped-elements-are-dropped", ("drop_measurements", et) in log, meta=dict(part="drop", fn=fn),
+                        note="a measurement that refers to a dropped element would dangle")
+                for cost in ("poly_cost", "pwl_cost"):
+                    p.prove(f"{tag}:{cost}-rows-of-the-dropped-elements-are-dropped", any(e[0] == "drop" and e[1] == cost for e in log),
+                            meta=dict(part="drop", fn=fn), note="a cost row that refers to a dropped element would dangle")
             return log
         return h
     idx = Opaque("indices")
@@ -271,8 +278,9 @@ def _standin(vc):
         vc.native_standins = []
     vc.native_standins.append(dict(
         name="reference integrity after edits of a fixed network",
-        bound="9 edit operations (drop_elements, drop_elements_simple, drop_lines, drop_trafos, drop_buses, reindex_elements x3, "
-              "create_continuous_elements_index) on example_multivoltage with groups (index and reference column), t3 switch, costs, measurements; "
+        bound="12 edit operations (drop_elements, drop_elements_simple, drop_lines, drop_trafos, drop_buses, reindex_elements x3, "
+              "create_continuous_elements_index, select_subnet x2, drop_inactive_elements) on example_multivoltage with groups (index and "
+              "reference column), t3 switch, costs on four element types (two sharing an element number), measurements; "
               "the listed known finding (result table index after reindex_elements) is excluded",
         script="from replaylib.references import main\nmain()\n"))
 
